@@ -256,9 +256,19 @@ class Effects:
             return out
         self._guards_of = guards_of
 
+        const_bools = {}
+        for root_ in roots:
+            for st_ in A.walk(root_):
+                if st_.get("k") == "DeclStmt":
+                    for d_ in st_.get("decls", []):
+                        if d_.get("k") == "VarDecl" and d_.get("is_const") and (d_.get("ctype") or "").replace("const ", "").strip() == "bool" and isinstance(d_.get("init"), dict):
+                            const_bools[d_["decl"]] = d_["init"]
+
         def ev(n_):
             n_ = A.strip(n_)
             k_ = n_.get("k")
+            if k_ == "DeclRefExpr" and n_.get("decl") in const_bools:
+                return ev(const_bools[n_["decl"]])          # a named condition (const bool) stands for its initialiser
             if k_ == "BinaryOperator" and n_["op"] in ("&&", "||"):
                 a_, b_ = ev(n_["c"][0]), ev(n_["c"][1])
                 if n_["op"] == "&&":
